@@ -16,8 +16,6 @@ fn c06_transfer_operatorship() {
     kani::assert(model::auth_of(&operator), "VERIF:C06:operatorship changes hands only with the current operator's authorisation (the owner's is not enough)");
     let (now, own) = model::with_contract(&me(), || (@TYPE@::operator(&env), @TYPE@::owner(&env)));
     kani::assert(now == new_operator && own == owner, "VERIF:C06:afterwards the operator role belongs to exactly the named successor and the owner is unchanged");
-    kani::assert(model::events_len() == 1 && model::event_contract(0) == me()
-        && model::event_topics(0) == model::topics_of(&(Symbol::new(&env, "operatorship_transferred"), operator.clone(), new_operator.clone())), "VERIF:C06:operatorship_transferred names previous and new operator");
     kani::cover!(operator != owner && !model::auth_of(&owner), "VERIF:reach:operatorship moved without the owner");
 }
 '''
